@@ -429,7 +429,7 @@ def apply_op(m, op):
         # the public policy objects (function addresses removed: they differ between processes)
         import re
         return [re.sub(r" at 0x[0-9a-f]+", "", repr(m.learning_policy)), re.sub(r" at 0x[0-9a-f]+", "", repr(m.neighborhood_policy)),
-                canon(list(m.arms)), repr(m.seed), repr(m.n_jobs), repr(m.backend)]
+                canon(list(m.arms)), repr(m.seed)]
     if k == "arms":
         return canon(list(m.arms))
     raise ValueError(k)
